@@ -234,6 +234,21 @@ def main(argv):
             pairs.append((src, (cfg[1], cfg[2])))
         if len(ck.samples) < 4 and len(ch) == 3 and verdict == "ok" and not cs and ch[0][1] == 'assign' and ch[2][1] in ('nlaug', 'read'):
             ck.sample({"chain": [f"{a}:{b_}" for a, b_ in ch], "module_assign": ma, "source": src})
+    # the hypothesis WalkOK of C06.free_name_goes_to_binder on CPython's own tables, for every program of the matrix
+    # (and of the generator's corpus): it must hold, otherwise the theorem does not speak about real programs
+    walk_bad = []
+    walk_srcs = [src for (_, _, _), (verdict, src, conv) in zip(items, results) if not verdict.startswith("skip")]
+    walk_srcs += [gen_prog.gen_program(ck.rng)[0] for _ in range(60 if ck.tier == "quick" else 1500)]
+    for src in walk_srcs:
+        try:
+            nw, bad = lower_common.walk_invariants(src)
+        except (SyntaxError, ValueError):
+            continue
+        ck.count("walks_checked", nw)
+        if bad:
+            walk_bad.append((src, bad[0]))
+    if walk_bad:
+        ck.broken.append(f"coverage: the hypothesis WalkOK of C06.free_name_goes_to_binder fails on {len(walk_bad)} programs' symbol tables, first: {walk_bad[0][1]} in {walk_bad[0][0]!r}")
     k_bad = []
     if b["driver_ok"]:
         for src, cfg, ok, detail in lower_common.compare(ol, pairs):
